@@ -392,6 +392,7 @@ class MPEGTS(object):
         """
 
         remainingbytes = 0
+        self.blocks = []
         while remainingbytes < len(buf):
             MpegBlock = MPEGPacket()
             try:
